@@ -16,6 +16,7 @@ import YalafiVerif.Proofs.PlainItem
 import YalafiVerif.Generated.Init
 import YalafiVerif.Properties.PlainRefStmt
 import YalafiVerif.Properties.PlainItemLStmt
+import YalafiVerif.Properties.CleverefStmt
 namespace Yalafi
 
 theorem C04_latexError_anchor (T : Tables) (hm : T.mark ≠ []) (err : Str) (pos n : Nat) (hp : pos < n) :
